@@ -17,7 +17,11 @@ Print Assumptions C05F_tables.
 (* for EVERY lexical value x (arbitrary strings in every field: unknown prefixes, connecters, copulas,
    wrong arities, missing or repeated placeholders, non-numeric / out-of-range / NaN / inf numbers,
    malformed stamps and punctuations), EVERY enum format E (not only the shipped ones), every float
-   reader and range test: the fold does not panic *)
+   reader and range test: the fold does not panic.
+   (Scope of the model: "bounded time" is not a statement of the model.  The one loop on this path whose
+   termination depends on the format is `head_skip_spaces` inside the stamp side door, which does not
+   terminate in Rust for a format with an EMPTY parse space; the model runs it on fuel.  All shipped
+   formats have a non-empty parse space -- part of [door_fmt_ok], Props/C03.v.) *)
 Theorem C05F_fold_total :
   forall (F : Type) (fread : str -> option F) (in01 : F -> bool) (E : efmt) (x : lnarsese),
     fold_narsese F fread in01 E x <> FPanic.
